@@ -223,7 +223,7 @@ def _verify_case(c, fnode, case, label, res, lemma_body=None):
     ex.obligations.append(Obligation(f"{ex.prefix}/cover.pre", [], pre_ok, expect="sat"))
     if normal_pcs:
         ex.obligations.append(Obligation(f"{ex.prefix}/cover.return", [], z3.Or(*normal_pcs), expect="sat"))
-    elif not c.raises:
+    elif not c.raises and not c.allow_exc and not any("type-invariant" in o.name for o in ex.obligations):
         raise Unsupported(f"{c.key}: no normal exit and no declared exception")
     res.paths += len(outcomes)
     res.obligations += ex.obligations
